@@ -159,6 +159,51 @@ PROPS["C10"] = {
     "explanation": "nested loop invariants over mk_inner / mk_S spec functions; branch-wise postconditions",
 }
 
+PROPS["C08"] = {
+    "modules": ["contracts.ops_spi"],
+    "contracts": ["hdc/algo/ops/stats.py::gammafit", "hdc/algo/ops/stats.py::gammastd", "hdc/algo/ops/stats.py::gammastd_yxt", "hdc/algo/ops/stats.py::gammastd_yxt@defaults"],
+    "standin": True,
+    "level": "proof",
+    "trusted": ["z3 5.1 / cvc5 1.0.3", "log, sqrt, digamma, gammainc, ndtri uninterpreted", "brentq through a call-site contract (returns a float): its float divisions in the secant/extrapolation steps are not proved non-zero",
+                "gammastd_grp (boolean masks, vectorised saturation): bounded stand-in for the value clauses; its index safety is discharged in C14"],
+    "not_proved": ["monotonicity of SPI in the observation (needs monotonicity of gammainc / ndtri and of IEEE rounding): bounded stand-in over all pairs of valid cells of each pixel",
+                   "pixel isolation in the 3-d driver beyond index safety (relational)", "accessor"],
+    "assumptions": ["floats are exact reals (model R)", "nodata is an int16 value"],
+    "level_text": "gammastd / gammafit / gammastd_yxt: every division is guarded (no ZeroDivisionError: n_valid, n, 12*s, alpha, beta), nodata and negative cells yield nodata, a pixel without valid cells or with more than 90% zeros yields nodata everywhere, valid cells are ndtri(p0 + (1-p0) gammainc(alpha, x/beta)), and every float64 -> int16 store in the 3-d driver is within the int16 range because SPI*1000 is saturated first (cast obligations); ordering/saturation values are additionally checked by the bounded stand-in",
+    "level_note": "trusted: z3/cvc5; special functions uninterpreted; brentq divisions and monotonicity only bounded; Numba faithful (C13)",
+    "explanation": "count invariants (cz, cv), formula invariant, cast obligations on the int16 stores",
+}
+
+PROPS["C07"] = {
+    "modules": ["contracts.ops_spi"],
+    "contracts": ["hdc/algo/ops/stats.py::gammafit", "hdc/algo/ops/stats.py::gammastd"],
+    "standin": True,
+    "level": "proof",
+    "trusted": ["z3 5.1 / cvc5 1.0.3", "log, sqrt, digamma, gammainc, ndtri uninterpreted (SciPy kernels bound through the vendored extension)",
+                "brentq through a call-site contract: that the +-40% bracket around Thom's estimate contains the root, that 100 iterations suffice and the root's accuracy are analytic facts outside any contract here",
+                "scaling by 1000 / rounding / int16 store: C08 contracts"],
+    "not_proved": ["numerical agreement with the gamma-MLE (root bracket, convergence, SciPy accuracy): bounded stand-in against an independent SciPy evaluation (wide-bracket brentq at 1e-14)",
+                   "float32 inputs: loose tolerance only"],
+    "assumptions": ["floats are exact reals (model R)"],
+    "level_text": "formula structure only: gammafit feeds the MLE equation with count / sum / sum-of-logs of exactly the strictly positive entries of the calibration slice (loop invariant), fails (0,0) when there is none; gammastd computes p0 as zeros / valid (non-nodata, >= 0) cells of the whole pixel, fits on x[cal_start:cal_stop] and evaluates ndtri(p0 + (1-p0) gammainc(alpha, x/beta)) on every valid cell, nodata elsewhere. Numerical agreement with the MLE is decided by the bounded stand-in",
+    "level_note": "proof of the formula structure with uninterpreted special functions; numerical clauses only bounded; Numba faithful (C13)",
+    "explanation": "count/sum invariants, formula invariant; independent SciPy oracle in the stand-in",
+}
+
+PROPS["C09"] = {
+    "modules": ["contracts.utils_c09", "contracts.c14"],
+    "contracts": ["hdc/algo/utils.py::get_calibration_indices", "hdc/algo/ops/stats.py::gammastd_grp@idx"],
+    "standin": True,
+    "level": "proof",
+    "trusted": ["z3 5.1 / cvc5 1.0.3", "ndarray.searchsorted(left/right) on a sorted array (assumed numpy contract)", "np.datetime64(str) parsing is monotone (assumed)",
+                "pandas boolean selection time[groups == ix], to_linspace, window validation and attrs in the accessor: bounded stand-in"],
+    "not_proved": ["grouped path of get_calibration_indices (list comprehension over pandas selections), group decomposition of gammastd_grp, label-partition invariance, ValueError for invalid windows, recorded attrs: bounded stand-in"],
+    "assumptions": ["time stamps are integers (ns); integers mathematical"],
+    "level_text": "get_calibration_indices (ungrouped): for every sorted axis and every begin/end the returned half-open index range contains exactly the steps t with begin <= time[t] <= end (both ends inclusive), for all axis lengths -- discharged from the searchsorted contract; gammastd_grp: index safety / every output cell written (C14 contract). Grouping semantics, label invariance, invalid windows and attrs are decided by the bounded stand-in against per-group ungrouped SPI",
+    "level_note": "proof for the ungrouped window only; grouped path and accessor bounded; Numba faithful (C13)",
+    "explanation": "searchsorted contract => window characterisation; stand-in for grouping",
+}
+
 ALL = ["C%02d" % i for i in range(1, 21)]
 NOT_APPLICABLE = {
     "C13": "statement about Numba's type inference/lowering and the ctypes binding of SciPy kernels (the translator), not about functions of /repo: no contract on hdc-algo source can establish or refute it; it is the stated assumption of every proof here",
